@@ -30,7 +30,8 @@ type consoleCfg struct {
 	fieldsExcl   []string
 	timeFormat   string
 	loc          *time.Location
-	tff          int // index into AllSettings() of a TimeFieldFormat deviation, -1 = default
+	tff          int  // index into AllSettings() of a TimeFieldFormat deviation, -1 = default
+	renamed      bool // the program renamed the timestamp / level / message / error / caller field names (the event is "an event the JSON logger can emit"; the default parts follow the names)
 }
 
 func (c consoleCfg) writer(out *bytes.Buffer) zerolog.ConsoleWriter {
@@ -309,6 +310,15 @@ func refParts(root *jsonstrict.Node, c consoleCfg) (parts []string, ok bool) {
 	return
 }
 
+// renameFields renames the standard fields the way a program may; it returns the undo.
+func renameFields() func() {
+	ts, lv, ms, er, ca := zerolog.TimestampFieldName, zerolog.LevelFieldName, zerolog.MessageFieldName, zerolog.ErrorFieldName, zerolog.CallerFieldName
+	zerolog.TimestampFieldName, zerolog.LevelFieldName, zerolog.MessageFieldName, zerolog.ErrorFieldName, zerolog.CallerFieldName = "ts", "lvl", "msg", "err", "src"
+	return func() {
+		zerolog.TimestampFieldName, zerolog.LevelFieldName, zerolog.MessageFieldName, zerolog.ErrorFieldName, zerolog.CallerFieldName = ts, lv, ms, er, ca
+	}
+}
+
 func consoleConfigs(tier string) []consoleCfg {
 	tffs := []int{-1}
 	for i, s := range seqx.AllSettings() {
@@ -356,6 +366,7 @@ func consoleConfigs(tier string) []consoleCfg {
 		t := t
 		add(seqx.AllSettings()[t].Name, func(c *consoleCfg) { c.tff = t })
 	}
+	add("field names renamed (ts lvl msg err src)", func(c *consoleCfg) { c.renamed = true })
 	out := []consoleCfg{{name: "default", tff: -1}}
 	for i, d := range devs {
 		c := consoleCfg{name: d.name, tff: -1}
@@ -405,28 +416,35 @@ func runC16() {
 					// quick: two-symbol events meet a third of the non-default configurations
 					continue
 				}
-				pp := p
-				if c.tff >= 0 {
-					pp.Settings = []int{c.tff}
-				}
-				out := seqx.Run(pp)
-				if out.Panic != "" || len(out.Lines) != 1 {
-					continue // C01's business
-				}
-				line := out.Lines[0]
-				root, err := jsonstrict.ParseLine(line)
-				if err != nil {
-					continue // C01's business
-				}
-				var restore func()
-				if c.tff >= 0 {
-					restore = seqx.AllSettings()[c.tff].Apply()
-				}
-				checkConsole(r, c, line, root, p)
-				if restore != nil {
-					restore()
-				}
-				perCfg[c.name]++
+				func() {
+					pp := p
+					if c.tff >= 0 {
+						pp.Settings = []int{c.tff}
+					}
+					unrename := func() {}
+					if c.renamed {
+						unrename = renameFields()
+					}
+					defer unrename()
+					out := seqx.Run(pp)
+					if out.Panic != "" || len(out.Lines) != 1 {
+						return // C01's business
+					}
+					line := out.Lines[0]
+					root, err := jsonstrict.ParseLine(line)
+					if err != nil {
+						return // C01's business
+					}
+					var restore func()
+					if c.tff >= 0 {
+						restore = seqx.AllSettings()[c.tff].Apply()
+					}
+					checkConsole(r, c, line, root, p)
+					if restore != nil {
+						restore()
+					}
+					perCfg[c.name]++
+				}()
 			}
 		}
 		A, S := alpha.Full, alpha.Structural
